@@ -151,6 +151,12 @@ class Gen(object):
         if r < 0.32 and self.cfg.get('q_wrap'):
             c = self.gen_q(model, depth + 1, allow_xor)
             return {'q': 'wrap', 'c': c}
+        if r < 0.42 and self.cfg.get('q_conn1'):
+            c = self.gen_q(model, 2, allow_xor)        # a leaf
+            if c and c['q'] == 'leaf':
+                return {'q': 'conn1', 'c': c,
+                        'op': rng.choice(['or', 'xor'] if allow_xor and
+                                         self.cfg.get('xor') else ['or'])}
         ops = ['and', 'or']
         if allow_xor and self.cfg.get('xor'):
             ops.append('xor')
@@ -970,6 +976,8 @@ def _constraint_ok(m, c, trows):
 def _has_xor(q):
     if q['q'] == 'leaf':
         return False
+    if q['q'] == 'conn1':
+        return q['op'] == 'xor'
     if q['q'] in ('not', 'wrap'):
         return _has_xor(q['c'])
     return q['q'] == 'xor' or any(_has_xor(c) for c in q['c'])
@@ -1008,7 +1016,7 @@ def q_eval(m, q, row):
     if t == 'not':
         x = q_eval(m, q['c'], row)
         return None if x is None else (not x)
-    if t == 'wrap':
+    if t in ('wrap', 'conn1'):
         return q_eval(m, q['c'], row)
     vals = [q_eval(m, c, row) for c in q['c']]
     if t == 'and':
